@@ -264,6 +264,16 @@ def run_case(chk, fa, case):
         return fail(*v)
     n0 = sim.child_steps
     full = resp0.get("stdout", "")
+    # the response must be what the program wrote to its record: compare with the same program run directly
+    if p0.outcome in ("ok",) or p0.outcome.startswith("exit:"):
+        direct = chk.exec_once(text, flags, inputs, True)
+        if direct["outcome"] == p0.outcome and not has_canary:
+            if resp0.get("stdout", "") != direct["rec1"]:
+                return fail("response-differs", f"flask returned stdout {resp0.get('stdout', '')[:80]!r} but the program's "
+                                                f"output record is {direct['rec1'][:80]!r}")
+            if direct["rec2"].strip() and direct["rec2"].strip()[-40:] not in resp0.get("stderr", ""):
+                return fail("response-differs", f"the program's error record {direct['rec2'][-60:]!r} is missing from the "
+                                                f"response's stderr {resp0.get('stderr', '')[-60:]!r}")
     if p0.outcome == "ok" and "timed out" in resp0.get("stderr", ""):
         return fail("spurious-timeout", "a child that finished in time was reported as timed out")
     steps_total = n0
